@@ -48,6 +48,9 @@ CLAIMED = {
  "C16": ("reference model, edge by edge: generated molecules, every descriptor node's reaction / termination / transition probabilities against the reference selection law; normalisation at every node",
          "For generated molecules of every archetype (lists incl. onto end groups, ids, weighted and listed left terminals, weighted explicit connectors, mixed bond orders) the reaction graph must have one node per token and descriptor, and for every descriptor node each of prob / term_prob / trans_prob must be absent or sum to 1 and equal, target by target, the probability the reference law (validated against the real generator in C08) gives; p>0 edges join compatible descriptors only; atom edges carry the attachment atom.",
          "Trusted: reference law of gbsv/reflaw.py; node mapping through Molecule.residues.", "DESIGN.md §2 C16"),
+ "C17": ("independently built expected multigraph from the AST compared with the stochastic atom graph (nodes, static / stochastic / termination / transition edge multisets)",
+         "For generated molecules of every archetype, with Schulz-Zimm distributions (default call) and other families (expect_schulz_zimm_distribution=False), an expected multigraph is built from the AST: one node per atom with element, charge, aromaticity; static edges in both directions with bond order; stochastic edges with the partner's or the listed weight; termination edges repeat unit -> end group; transition edges between consecutive elements respecting the terminals; nothing leaves an end group. Edge multisets must be equal - no edge missing, none surplus.",
+         "Trusted: reference fragments and compatibility rule; all-zero edges ignored on both sides.", "DESIGN.md §2 C17"),
  "C15": ("breaking operators on generated valid instances with a must-be-rejected oracle (Hypothesis) + byte-level mutation and coverage-guided fuzzing (atheris/libFuzzer) under a deterministic step budget",
          "Generated-input search: 17 breaking operators, each producing an invalid string by construction, are applied at generated positions to valid well-posed molecules of every archetype; the broken string must end in an error at parse or at generate (non-generable for negative weights / missing distribution) - a produced molecule is the violation. Termination of the five constructors is explored with Hypothesis byte mutations of docs/tests strings and two atheris campaigns (seeded and empty corpus) under a line-event budget.",
          "Trusted: each operator's claim that its output is invalid (stated per operator in gbsv/checks/c15.py); termination is bounded liveness: 20000+2000*len line events inside gbigsmiles.", "DESIGN.md §2 C15"),
